@@ -135,7 +135,7 @@ def run(tier, seed):
     alpha = [l for l in (1, 2, 3, 5, 7, 10, max(lens)) if l in L]
     if not rep.expired():
         jobs = []
-        for c in (2, 3, 4, 5, 8, 16):
+        for c in ((2, 3, 4, 5, 8, 16) if tier == "quick" else tuple(range(2, 21)) + (32,)):
             for p in range(c):
                 for k in ((1, 2, 3) if tier == "thorough" else (2, 3)):
                     for seq in itertools.product(alpha, repeat=k):
